@@ -40,7 +40,8 @@ MANIFEST = {
             "argument's location (the sign-extending mov qword shortcut only when it reproduces the value); reg_stack_arg_machine - every integer "
             "type pair and register value is extended as the parameter type requires on its way to a stack slot; reg_reg_arg_machine - likewise for "
             "8/16-bit registers and wider integer register parameters and for int32 -> int64 (fixes C06-17, C06-20). AArch64: a64_imm_stack_machine - an "
-            "immediate stack argument is stored in exactly size_of(type) bytes of its slot (fix C06-21; Apple packs small stack arguments). Whole argument lists (Props/C06InvokeList.lean): pack_machine / "
+            "immediate stack argument is stored in exactly size_of(type) bytes of its slot (fix C06-21; Apple packs small stack arguments); "
+            "a64_reg_reg_arg_machine - a narrower register for a wider integer parameter is extended as the type requires (fix C06-22). Whole argument lists (Props/C06InvokeList.lean): pack_machine / "
             "invoke_int_args_machine - for any number of integer arguments (immediates and GP virtual registers of every integer type, register and "
             "stack positions, 32/64-bit targets) the instructions on_before_invoke emits, run on the machine from any state, leave EVERY argument's "
             "location holding the value passed (immediate / register extended as required / register as it is in register positions when it is not "
@@ -48,7 +49,7 @@ MANIFEST = {
             "virtual registers per argument, disjoint slots). Vector / by-reference arguments: per-path theorems + temps_ok, not yet in the list theorem.",
     "note": "Model follows the code with fixes C06-1..16 (all in /repo). Trusted: Lean kernel; Spec/ABI.lean and Spec/Machine.lean as the meaning of the ABIs / of "
             "the mov family; the FuncFrame facts (dirty/preserved masks, SA register/offsets) are inputs taken from the real frame (C07); the "
-            "harness/driver diff. Open finding C06-K11 (AArch64 invoke: a narrower register is never extended for a wider integer parameter); K9 / K10 repaired by fixes C06-20 / C06-21. Not claimed: mmx on 32-bit, 64-bit integers under GCC regparm, call-site marshalling inside the "
+            "harness/driver diff. No open finding: K9 / K10 / K11 repaired by fixes C06-20 / C06-21 / C06-22 (C06-22 is proposed; until it is in /repo the check reports the K11 class and the matching correspondence differences there). Not claimed: mmx on 32-bit, 64-bit integers under GCC regparm, call-site marshalling inside the "
             "register allocator (C05: the allocator's own moves are only judged by the machine monitor), theorems for the AArch64 invoke lowering beyond a64_imm_value / store8_first_and_overflow, vector / by-reference arguments in the list theorem, shuffle_correct for stack destinations / non-integer groups without the selection hypothesis, byte overlap of stack slots (movaps stores 16 bytes for a float).",
 }
 MODS = ["AsmjitVerif.Props.C06", "AsmjitVerif.Props.C06Invoke", "AsmjitVerif.Props.C06InvokeList", "AsmjitVerif.Props.C06InvokeA64"]
